@@ -103,6 +103,11 @@ func (mw *msgWriter) Write(payload []byte) (int, error) {
 	var n int
 	n, mw.err = mw.writer.Write(payload)
 	mw.bytesWritten += int64(n)
+	if mw.err == nil && n < len(payload) {
+		// A destination that accepts only a part of the payload is supposed to report an error. If it
+		// does not, the message would be truncated without anybody noticing
+		mw.err = io.ErrShortWrite
+	}
 	return n, mw.err
 }
 
